@@ -278,6 +278,8 @@ def rule_roll_closes_writer(ctx, p, cfg, rid="R3"):
                 nm = (c.callee or "").rsplit("::", 1)[-1]
                 if nm in ("take", "replace", "insert", "get_or_insert_with", "get_or_insert") and "Option" in (c.callee or ""):
                     if c.t.get("arg_tys") and slot_ty in c.t["arg_tys"][0]:
+                        if path == ro["get_writer"].path and nm in ("insert", "get_or_insert_with", "get_or_insert"):
+                            continue   # the opener filling the empty slot (`slot.insert(w)` is `*slot = Some(w)`)
                         takers.append(path)
         r.require(not takers, "no-other-slot-mutators", detail="Option::take/replace on the writer slot: %s" % takers)
 
@@ -379,6 +381,10 @@ def rule_reopen(ctx, p, cfg, rid="R5"):
         for bid, i, s in g.assigns():
             if s.get("lhs_ty") == slot_ty:
                 stores.append((bid, g._rvalue(s["rv"], frozenset(), 30, bid)))
+        for c in g.calls("core::option::Option::<T>::insert"):
+            if c.t.get("arg_tys") and slot_ty in c.t["arg_tys"][0] and any(x == ("param", 2) for x in walk(c.arg(0))):
+                # slot.insert(w): the same store, spelled as a call
+                stores.append((c.block, ("agg", "core::option::Option", "Some", (("0", c.arg(1)),))))
         r.require(len(stores) == 1 and stores[0][1][0] == "agg" and stores[0][1][2] == "Some", "stores-some", fn=g, detail="slot assignments: %s" % [show(e, 3) for _, e in stores])
         if stores:
             sb = stores[0][0]
